@@ -416,4 +416,52 @@ theorem oned_image_read_write_upca (E : Env) (hT : OneD.WFUpcEan E.T = true) (wf
   obtain ⟨mods, _, hR⟩ := upca_readable E hT wf contents full hw width height margin hm hm2 ext39
   exact upright_of_readable hR binz th
 
+/-! ## boundaries and non-vacuity (evaluated by the kernel on the reference tables = the regenerated ones, Obligations) -/
+
+/-- **UPC-E default margin: the known finding as a proved boundary.**  Written with default settings ("0123456", margin
+    hint absent = 9 < 13) the image is NOT read back by the UPC-E reader (either binariser) … -/
+theorem upce_default_margin_not_read :
+    imagePath refEnv .upce (bytesOf "0123456") 0 1 none none .upright .hybrid false false = .error .notFound ∧
+    imagePath refEnv .upce (bytesOf "0123456") 0 1 none none .upright .global false true = .error .notFound ∧
+    imagePath refEnv .upce (bytesOf "0123456") 0 1 (some 12) none .upright .hybrid false false = .error .notFound := by
+  decide +kernel
+
+/-- … and with margin 13, the bound of `oned_image_read_write_upce`, it is -/
+example : imagePath refEnv .upce (bytesOf "0123456") 0 1 (some 13) none .upright .hybrid false false =
+    .ok ⟨.upce, bytesOf "01234565", 0, false, false, none⟩ := by decide +kernel
+
+/-- **the binariser's border pixels: margin 2 is needed.**  With margin 1 at the natural width the left padding is 0, the
+    first bar starts on pixel 0, `GetBlackRow` never sets pixel 0 — the symbol is not read; with margin 2 it is. -/
+theorem margin_two_needed :
+    imagePath refEnv .code128 [65, 49, 50, 51, 52, 97] 0 1 (some 1) none .upright .hybrid false false = .error .notFound ∧
+    imagePath refEnv .code128 [65, 49, 50, 51, 52, 97] 0 1 (some 2) none .upright .hybrid false false =
+      .ok ⟨.code128, [65, 49, 50, 51, 52, 97], 0, false, false, none⟩ := by
+  decide +kernel
+
+/-- the table hypotheses hold for the reference tables -/
+example : Row128.wfRow128B refEnv.T.code128 = true ∧ RowITF.wfRowITFB refEnv.T refEnv.I = true ∧
+    refEnv.I.defaultAllowed = [6, 8, 10, 12, 14] := by decide +kernel
+example : Row39.WF93Row refEnv.T = true ∧ Row39.WF39Row refEnv.T = true ∧ Row39.WFCbRow refEnv.T = true := by decide +kernel
+example : OneD.WFUpcEan refEnv.T = true ∧ Gzx.Proofs.OneDRowExtTotal.wfRow refEnv.T refEnv.X = true := by decide +kernel
+/-- margin bounds: 7 (EAN-13 / EAN-8 / UPC-A), 13 (UPC-E) for the reference guards; the default 9 meets the first only -/
+example : 2 * OneD.sumL refEnv.T.startEnd + 1 = 7 ∧ 2 * OneD.sumL refEnv.T.upceMiddleEnd + 1 = 13 := by decide
+/-- content hypotheses are satisfiable, and the theorems' conclusions on concrete instances -/
+example : code128Modules refEnv.T [65, 49, 50, 51, 52, 97] none ≠ .error .writer := by decide +kernel
+example : CheckDigit.writerContents .ean13 (bytesOf "590123412345") = .ok (bytesOf "5901234123457") := by decide
+example : imagePath refEnv .ean13 (bytesOf "590123412345") 0 7 none none .upright .global false false =
+    .ok ⟨.ean13, bytesOf "5901234123457", 3, false, false, none⟩ := by decide +kernel
+example : imagePath refEnv .upca (bytesOf "01234567890") 200 2 (some 7) none .upright .hybrid false true =
+    .ok ⟨.upca, bytesOf "012345678905", 1, false, false, none⟩ := by decide +kernel
+example : imagePath refEnv .ean8 (bytesOf "9638507") 0 0 none none .upright .hybrid false false =
+    .ok ⟨.ean8, bytesOf "96385074", 0, false, false, none⟩ := by decide +kernel
+example : imagePath refEnv .code39 (bytesOf "a") 0 3 (some 2) none .upright .global (ext39Of refEnv.T (bytesOf "a")) false =
+    .ok ⟨.code39, bytesOf "a", 1, false, false, none⟩ := by decide +kernel
+example : imagePath refEnv .code93 (bytesOf "a~") 100 1 none none .upright .hybrid false false =
+    .ok ⟨.code93, bytesOf "a~", 0, false, false, none⟩ := by decide +kernel
+example : imagePath refEnv .itf (bytesOf "123456") 0 4 (some 2) none .upright .hybrid false true =
+    .ok ⟨.itf, bytesOf "123456", 2, false, false, none⟩ := by decide +kernel
+example : codabarFull (bytesOf "B1-$D") = .ok (bytesOf "B1-$D") := by decide
+example : imagePath refEnv .codabar (bytesOf "B1-$D") 0 1 none none .upright .hybrid false false =
+    .ok ⟨.codabar, bytesOf "1-$", 0, false, false, none⟩ := by decide +kernel
+
 end Gzx.Properties.C03Image
